@@ -311,7 +311,7 @@ class NetAddr():
         res += self._strpad4(len(msg[1:]) + 1)  # Type tag string.
         for val in msg[1:]:
             if isinstance(val, str):
-                res += self._strpad4(len(val))
+                res += self._strpad4(len(val.encode('utf-8')))
             elif isinstance(val, (bytes, bytearray, memoryview)):
                 res += len(val) + (-len(val) % 4) + 4  # Padded blob + size bytes.
             elif isinstance(val, list):
